@@ -7,7 +7,7 @@ rsync -a --exclude .git /repo/ $S/
 sed -i "$expr" $S/$file
 if diff -q /repo/$file $S/$file >/dev/null; then echo "MUTATION DID NOT APPLY"; rm -rf $S; exit 3; fi
 ( cd $S && GOFLAGS=-mod=mod GOPROXY=off GOSUMDB=off go build ./... ) || { echo "MUTANT DOES NOT COMPILE"; rm -rf $S; exit 4; }
-VERIF_REPO=$S VERIF_OUT=$S/_verifout /verif/bin/govc check $prop | sed "s#$S#/repo#g" | grep -v '^KNOWN' | tail -${TAIL:-6}
+VERIF_REPO=$S VERIF_OUT=$S/_verifout ${GOVC_BIN:-/verif/bin/govc} check $prop | sed "s#$S#/repo#g" | grep -v '^KNOWN' | tail -${TAIL:-6}
 rc=${PIPESTATUS[0]}
 rm -rf $S
 exit $rc
